@@ -61,6 +61,7 @@ def run_one(mid, patch, props, tier):
 def main():
     args = [a for a in sys.argv[1:] if not a.startswith('--')]
     allp = '--all-props' in sys.argv
+    only = [a.split('=', 1)[1].split(',') for a in sys.argv if a.startswith('--props=')]
     tier = 'thorough' if '--thorough' in sys.argv else 'quick'
     ms = mutants()
     ids = args or sorted(i for i in ms if not i.startswith('bp-'))
@@ -80,7 +81,7 @@ def main():
                 old[k] = v
         json.dump(old, open(out, 'w'), indent=1, sort_keys=True)
     with ThreadPoolExecutor(int(os.environ.get('MUT_PAR', '3'))) as ex:
-        futs = [ex.submit(run_one, i, ms[i][0], ALL if allp else ms[i][1], tier) for i in ids]
+        futs = [ex.submit(run_one, i, ms[i][0], only[0] if only else (ALL if allp else ms[i][1]), tier) for i in ids]
         for f in futs:
             mid, res = f.result()
             results[mid] = res
